@@ -387,6 +387,88 @@ Proof.
   rewrite FrM by assumption. exact B.
 Qed.
 
+(* ---- "siblings appear in source order": along every next link the spans do not overlap and do not go back *)
+Definition ordered (h : heap) : Prop :=
+  forall i j si li sj, j <> 0 -> rd h i Fnx = Some j -> rd h i Fst = Some si -> rd h i Fln = Some li -> rd h j Fst = Some sj -> si + li <= sj.
+Definition bounded (h : heap) : Prop :=
+  forall i si li, rd h i Fst = Some si -> rd h i Fln = Some li -> si + li < W.
+
+(* along a chain the start of every later token is at or after the end of an earlier one *)
+Lemma seg_mono h : ordered h -> forall r p x q y,
+  seg h p (x :: r) q -> In y r ->
+  forall sx lx sy, rd h x Fst = Some sx -> rd h x Fln = Some lx -> rd h y Fst = Some sy -> sx + lx <= sy.
+Proof.
+  intros O. induction r as [|z r IH]; intros p x q y S Hy sx lx sy Hsx Hlx Hsy; [destruct Hy|].
+  cbn [seg hd] in S. destruct S as (Vx & _ & Nx & S).
+  assert (Vz : valid h z) by (cbn [seg] in S; tauto).
+  destruct (rd_valid h z Fst Vz) as [sz Esz]. destruct (rd_valid h z Fln Vz) as [lz Elz].
+  assert (Zz : z <> 0) by (destruct Vz; assumption).
+  pose proof (O x z sx lx sz Zz Nx Hsx Hlx Esz) as B.
+  destruct Hy as [->|Hy]; [rewrite Esz in Hsy; injection Hsy as <-; exact B|].
+  pose proof (IH x z q y S Hy sz lz sy Esz Elz Hsy). lia.
+Qed.
+
+Theorem graft_preserves_order (h : heap) (a m b : list N) (fi la ctype mm : N) :
+  dl h -> ordered h -> bounded h ->
+  seg h 0 (a ++ fi :: m ++ la :: b) 0 -> NoDup (a ++ fi :: m ++ la :: b) ->
+  rd h fi Fmt = Some mm -> mm = 0 \/ valid h mm /\ mm <> fi ->
+  rd h (hd fi a) Ftl = Some (List.last b la) ->
+  exists h', token_prune_graft h fi la ctype = Some h' /\ ordered h' /\ bounded h'.
+Proof.
+  intros D O B HS ND Hmt Hmm Htl.
+  destruct (prune_graft_spec h a m b fi la ctype mm HS ND Hmt Hmm Htl) as
+    (h' & E & L & So & _ & Cch & Sc & _ & _ & Fst' & Fln' & Cp & _ & _ & _ & Fr).
+  exists h'. split; [exact E|].
+  set (c := fresh h) in *.
+  destruct (graft_pieces h a m b fi la HS) as (Sa & Vf & Pf & Nf & Sm & Vl & Pl & Nl & Sb).
+  destruct (rd_valid h fi Fst Vf) as [sf Esf]. destruct (rd_valid h fi Fln Vf) as [lf Elf].
+  destruct (rd_valid h la Fst Vl) as [sl Esl]. destruct (rd_valid h la Fln Vl) as [ll Ell].
+  assert (Ncf : c <> fi) by (apply not_eq_sym, valid_neq_fresh; exact Vf).
+  assert (Mfl : sf + lf <= sl).
+  { assert (S' : seg h (List.last a 0) (fi :: m ++ [la]) (hd 0 b)).
+    { apply seg_app in HS. destruct HS as [_ S1]. replace (fi :: m ++ la :: b) with ((fi :: m ++ [la]) ++ b) in S1 by (cbn; rewrite <- app_assoc; reflexivity).
+      apply seg_app in S1. tauto. }
+    apply (seg_mono h O (m ++ [la]) _ fi _ la S'); try assumption. apply in_or_app. right. left. reflexivity. }
+  assert (Bl : sl + ll < W) by (apply (B la); assumption).
+  assert (Lf' : rd h' fi Fln = Some (sl + ll - sf)).
+  { rewrite (Fln' sl ll sf Esl Ell Esf). f_equal. rewrite wadd_small by exact Bl. apply wsub_small; lia. }
+  assert (Sf' : rd h' fi Fst = Some sf) by (rewrite Fst'; exact Esf).
+  assert (Sc' : rd h' c Fst = Some sf) by (rewrite (Cp Fst) by tauto; exact Esf).
+  assert (Lc' : rd h' c Fln = Some lf) by (rewrite (Cp Fln) by tauto; exact Elf).
+  assert (FrS : forall j g, (g = Fst \/ g = Fln) -> j <> fi -> j <> c -> rd h' j g = rd h j g).
+  { intros j g Hg N1 N2. apply Fr; try assumption; intros [_ X]; rewrite X in Hg; destruct Hg; discriminate. }
+  assert (FrN : forall j, j <> fi -> j <> c -> j <> la -> rd h' j Fnx = rd h j Fnx).
+  { intros j N1 N2 N3. apply Fr; try assumption; try (intros [_ X]; discriminate). intros [X _]. contradiction. }
+  assert (Nfc : rd h' c Fnx = Some (hd la m)).
+  { cbn [seg] in Sc. destruct Sc as (_ & _ & Nx & _). rewrite hd_app_cons in Nx. exact Nx. }
+  assert (Nff : rd h' fi Fnx = Some (hd 0 b)).
+  { apply seg_app in So. destruct So as [_ So]. cbn [seg] in So. tauto. }
+  assert (Nll : rd h' la Fnx = Some 0).
+  { cbn [seg] in Sc. destruct Sc as (_ & _ & _ & Sc). apply seg_app in Sc. destruct Sc as [_ Sc]. cbn [seg hd] in Sc. tauto. }
+  (* the start of an old token as read in the new heap *)
+  assert (OldS : forall j sj, valid h j -> rd h' j Fst = Some sj -> rd h j Fst = Some sj).
+  { intros j sj Vj Hj. destruct (N.eq_dec j fi) as [->|N1]; [rewrite Sf' in Hj; congruence|].
+    rewrite FrS in Hj; [exact Hj|tauto|exact N1|apply valid_neq_fresh; exact Vj]. }
+  split.
+  - intros i j si li sj Zj Hn Hs Hl Hj.
+    destruct (N.eq_dec i c) as [->|Nic].
+    + rewrite Sc' in Hs. rewrite Lc' in Hl. injection Hs as <-. injection Hl as <-. rewrite Nfc in Hn. injection Hn as <-.
+      assert (Vj : valid h (hd la m)) by (destruct m as [|y m']; cbn [hd]; [exact Vl|cbn [seg] in Sm; tauto]).
+      exact (O fi (hd la m) sf lf sj Zj Nf Esf Elf (OldS _ _ Vj Hj)).
+    + destruct (N.eq_dec i fi) as [->|Nif].
+      * rewrite Sf' in Hs. rewrite Lf' in Hl. injection Hs as <-. injection Hl as <-. rewrite Nff in Hn. injection Hn as <-.
+        assert (Vj : valid h (hd 0 b)) by (destruct b as [|y b']; cbn [hd] in *; [contradiction|cbn [seg] in Sb; tauto]).
+        pose proof (O la (hd 0 b) sl ll sj Zj Nl Esl Ell (OldS _ _ Vj Hj)). lia.
+      * destruct (N.eq_dec i la) as [->|Nil]; [rewrite Nll in Hn; injection Hn as <-; contradiction|].
+        rewrite FrN in Hn by assumption. rewrite FrS in Hs, Hl by (try assumption; tauto).
+        assert (Vj : valid h j) by (destruct (D i j Zj) as [D1 _]; eapply rd_some_valid; exact (D1 Hn)).
+        exact (O i j si li sj Zj Hn Hs Hl (OldS _ _ Vj Hj)).
+  - intros i si li Hs Hl.
+    destruct (N.eq_dec i c) as [->|Nic]; [rewrite Sc' in Hs; rewrite Lc' in Hl; injection Hs as <-; injection Hl as <-; apply (B fi); assumption|].
+    destruct (N.eq_dec i fi) as [->|Nif]; [rewrite Sf' in Hs; rewrite Lf' in Hl; injection Hs as <-; injection Hl as <-; lia|].
+    rewrite FrS in Hs, Hl by (try assumption; tauto). apply (B i); assumption.
+Qed.
+
 (* the other primitives never write a mate field; tokens they allocate have none *)
 Lemma same_of_frame h h' (news : list N) :
   (forall j, ~ In j news -> rd h' j Fmt = rd h j Fmt) -> (forall j, In j news -> Nlen h < j /\ rd h' j Fmt = Some 0) ->
@@ -466,11 +548,260 @@ Proof.
   apply (msym_same h); [exact M|]. intro j. left. apply Fr; intros [_ X]; discriminate.
 Qed.
 
+(* ---- the other primitives keep siblings in source order *)
+
+(* when no start / length changes and the only new next links are listed, order is kept *)
+Lemma order_relink h h' (news : list (N * N)) :
+  ordered h -> bounded h ->
+  (forall j g, g = Fst \/ g = Fln -> rd h' j g = rd h j g) ->
+  (forall i j, j <> 0 -> rd h' i Fnx = Some j -> rd h i Fnx = Some j \/ In (i, j) news) ->
+  (forall i j si li sj, In (i, j) news -> rd h i Fst = Some si -> rd h i Fln = Some li -> rd h j Fst = Some sj -> si + li <= sj) ->
+  ordered h' /\ bounded h'.
+Proof.
+  intros O B F Lk Nw. split.
+  - intros i j si li sj Zj Hn Hs Hl Hj. rewrite F in Hs, Hl, Hj by tauto.
+    destruct (Lk i j Zj Hn) as [Old|New]; [exact (O i j si li sj Zj Old Hs Hl Hj)|exact (Nw i j si li sj New Hs Hl Hj)].
+  - intros i si li. rewrite !F by tauto. apply B.
+Qed.
+
+Lemma seg_last_nx h p x r q : seg h p (x :: r) q -> rd h (List.last r x) Fnx = Some q.
+Proof.
+  revert p x; induction r as [|y r IH]; intros p x S.
+  - cbn [seg hd] in S. cbn. tauto.
+  - cbn [seg] in S. destruct S as (_ & _ & _ & S).
+    replace (List.last (y :: r) x) with (List.last r y) by (symmetry; apply last_cons). apply (IH x y S).
+Qed.
+
+Theorem prune_preserves_order h a pvt x rr b h' :
+  ordered h -> bounded h -> seg h 0 (a ++ pvt :: (x :: rr) ++ b) 0 -> NoDup (a ++ pvt :: (x :: rr) ++ b) ->
+  rd h (hd pvt a) Ftl = Some (List.last b (List.last rr x)) -> tokens_prune h x (List.last rr x) = Some h' -> ordered h' /\ bounded h'.
+Proof.
+  intros O B HS ND Htl E.
+  destruct (prune_spec h a pvt x rr b HS ND Htl) as (h2 & E2 & _ & S1 & _ & S2 & Fr).
+  assert (h2 = h') by congruence. subst h2.
+  apply (order_relink h h' [(pvt, hd 0 b)]); try assumption.
+  - intros j g Hg. apply Fr; intros [_ X]; rewrite X in Hg; destruct Hg; discriminate.
+  - intros i j Zj Hn.
+    destruct (N.eq_dec i pvt) as [->|N1].
+    { right. left. f_equal. apply seg_app in S1. destruct S1 as [_ S1]. cbn [seg] in S1. destruct S1 as (_ & _ & Nx & _). congruence. }
+    destruct (N.eq_dec i (List.last rr x)) as [->|N2].
+    { exfalso. rewrite (seg_last_nx h' 0 x rr 0 S2) in Hn. injection Hn as <-. contradiction. }
+    left. rewrite <- Hn. symmetry. apply Fr; try (intros [_ X]; discriminate); intros [X _]; contradiction.
+  - intros i j si li sj [X|[]] Hs Hl Hj. injection X as <- <-.
+    destruct b as [|y b']; [cbn [hd] in Hj; unfold rd, tokat in Hj; cbn in Hj; discriminate|]. cbn [hd] in Hj.
+    apply seg_app in HS. destruct HS as [_ HS].
+    apply (seg_mono h O ((x :: rr) ++ y :: b') _ pvt _ y HS); try assumption.
+    apply in_or_app. right. left. reflexivity.
+Qed.
+
+Theorem pop_link_preserves_order h a pvt t b h' :
+  ordered h -> bounded h -> seg h 0 (a ++ pvt :: t :: b) 0 -> NoDup (a ++ pvt :: t :: b) ->
+  token_pop_link_from_chain h t = Some h' -> ordered h' /\ bounded h'.
+Proof.
+  intros O B HS ND E.
+  destruct (pop_link_spec h a pvt t b HS ND) as (h2 & E2 & _ & S1 & _ & Nt & _ & _ & Fr).
+  assert (h2 = h') by congruence. subst h2.
+  apply (order_relink h h' [(pvt, hd 0 b)]); try assumption.
+  - intros j g Hg. apply Fr; intros [_ X]; rewrite X in Hg; destruct Hg; discriminate.
+  - intros i j Zj Hn.
+    destruct (N.eq_dec i pvt) as [->|N1].
+    { right. left. f_equal. apply seg_app in S1. destruct S1 as [_ S1]. cbn [seg] in S1. destruct S1 as (_ & _ & Nx & _). congruence. }
+    destruct (N.eq_dec i t) as [->|N2]; [rewrite Nt in Hn; injection Hn as <-; contradiction|].
+    left. rewrite <- Hn. symmetry. apply Fr; try (intros [_ X]; discriminate); intros [X _]; contradiction.
+  - intros i j si li sj [X|[]] Hs Hl Hj. injection X as <- <-.
+    destruct b as [|y b']; [cbn [hd] in Hj; unfold rd, tokat in Hj; cbn in Hj; discriminate|]. cbn [hd] in Hj.
+    apply seg_app in HS. destruct HS as [_ HS].
+    apply (seg_mono h O (t :: y :: b') _ pvt _ y HS); try assumption. right. left. reflexivity.
+Qed.
+
+Theorem mate_preserves_order h a b h' :
+  ordered h -> bounded h -> pair_mate h a b = Some h' -> ordered h' /\ bounded h'.
+Proof.
+  intros O B E. unfold pair_mate in E.
+  destruct (wr h a Fmt b) as [h1|] eqn:E1; [|discriminate]. cbn [obind] in E.
+  assert (Va : valid h a). { unfold wr in E1. destruct (tokat h a) eqn:T; [eapply tokat_some_valid; eauto|discriminate]. }
+  destruct (wr_ok h a Fmt b Va) as (h1' & E1' & L1 & R1). assert (h1' = h1) by congruence. subst h1'.
+  assert (Vb : valid h1 b). { unfold wr in E. destruct (tokat h1 b) eqn:T; [eapply tokat_some_valid; eauto|discriminate]. }
+  destruct (wr_ok h1 b Fmt a Vb) as (h2 & E2 & L2 & R2). assert (h2 = h') by congruence. subst h2.
+  apply (order_relink h h' []); try assumption.
+  - intros j g Hg. rewrite R2, R1. destruct Hg as [->| ->]; cbn [feqb]; rewrite !andb_false_r; reflexivity.
+  - intros i j Zj Hn. left. rewrite R2, R1 in Hn. cbn [feqb] in Hn. rewrite !andb_false_r in Hn. exact Hn.
+  - intros i j si li sj [].
+Qed.
+
+Lemma dl_next_valid h i j : dl h -> j <> 0 -> rd h i Fnx = Some j -> valid h j.
+Proof. intros D Zj Hn. destruct (D i j Zj) as [D1 _]. eapply rd_some_valid. exact (D1 Hn). Qed.
+
+Theorem new_preserves_order h type start len :
+  dl h -> ordered h -> bounded h -> start + len < W ->
+  ordered (fst (token_new h type start len)) /\ bounded (fst (token_new h type start len)).
+Proof.
+  intros D O B Bn. unfold token_new. cbn [fst].
+  pose proof (rd_alloc h (mktk type start len 0 0 0 (fresh h) 0)) as R. split.
+  - intros i j si li sj Zj. rewrite !R.
+    destruct (N.eqb_spec i (fresh h)) as [Ei|Ei]; [cbn; intro X; injection X as <-; contradiction|].
+    destruct (N.eqb_spec j (fresh h)) as [Ej|Ej].
+    + intros Hn. exfalso. subst j. exact (fresh_not_valid h (dl_next_valid h i _ D Zj Hn)).
+    + apply O, Zj.
+  - intros i si li. rewrite !R. destruct (N.eqb_spec i (fresh h)); [cbn; intros X Y; injection X as <-; injection Y as <-; exact Bn|apply B].
+Qed.
+
+Theorem chain_append_preserves_order h x1 r1 x2 r2 h' :
+  ordered h -> bounded h ->
+  seg h 0 (x1 :: r1) 0 -> seg h 0 (x2 :: r2) 0 -> NoDup ((x1 :: r1) ++ (x2 :: r2)) -> tail_ok h x1 r1 -> tail_ok h x2 r2 ->
+  (forall s1 l1 s2, rd h (List.last r1 x1) Fst = Some s1 -> rd h (List.last r1 x1) Fln = Some l1 -> rd h x2 Fst = Some s2 -> s1 + l1 <= s2) ->
+  token_chain_append h x1 x2 = Some h' -> ordered h' /\ bounded h'.
+Proof.
+  intros O B S1 S2 ND T1 T2 Gap E.
+  destruct (chain_append_spec h x1 r1 x2 r2 S1 S2 ND T1 T2) as (h2 & E2 & _ & Sn & _ & Fr).
+  assert (h2 = h') by congruence. subst h2.
+  apply (order_relink h h' [(List.last r1 x1, x2)]); try assumption.
+  - intros j g Hg. apply Fr; intros [_ X]; rewrite X in Hg; destruct Hg; discriminate.
+  - intros i j Zj Hn.
+    destruct (N.eq_dec i (List.last r1 x1)) as [->|N1].
+    + right. left. f_equal.
+      assert (In (List.last r1 x1) ((x1 :: r1) ++ x2 :: r2)) by (apply in_or_app; left; apply last_in_cons).
+      pose proof Sn as Sn'. apply seg_app in Sn'. destruct Sn' as [Sa _]. cbn [hd] in Sa.
+      rewrite (seg_last_nx h' 0 x1 r1 x2 Sa) in Hn. congruence.
+    + left. rewrite <- Hn. symmetry. apply Fr; try (intros [_ X]; discriminate). intros [X _]. contradiction.
+  - intros i j si li sj [X|[]] Hs Hl Hj. injection X as <- <-. exact (Gap si li sj Hs Hl Hj).
+Qed.
+
+Theorem new_parent_preserves_order h x r ptype sx h' n :
+  dl h -> ordered h -> bounded h -> seg h 0 (x :: r) 0 -> NoDup (x :: r) -> rd h x Fst = Some sx ->
+  token_new_parent h x ptype = Some (h', n) -> ordered h' /\ bounded h'.
+Proof.
+  intros D O B HS ND Hsx E.
+  destruct (new_parent_spec h 0 x r ptype sx HS ND Hsx) as (h2 & el & ll & E2 & _ & Eel & Ell & _ & _ & _ & Stn & Lnn & Nxn & _ & _ & _ & Fr).
+  assert (h2 = h') by congruence. subst h2.
+  set (t := fresh h) in *.
+  assert (Vx : valid h x) by (cbn [seg] in HS; tauto).
+  assert (FrO : forall j g, j <> t -> g <> Fpv -> rd h' j g = rd h j g) by (intros j g N1 N2; apply Fr; [exact N1|intros [_ X]; contradiction]).
+  (* the end of the last child is not before the start of the first *)
+  assert (Ge : sx <= el + ll).
+  { destruct r as [|y r']; [cbn in Eel; rewrite Hsx in Eel; injection Eel as <-; lia|].
+    destruct (rd_valid h x Fln Vx) as [lx Elx].
+    pose proof (seg_mono h O (y :: r') 0 x 0 (List.last (y :: r') x) HS (in_last (y :: r') x ltac:(discriminate)) sx lx el Hsx Elx Eel). lia. }
+  assert (Bl : el + ll < W) by (apply (B (List.last r x)); assumption).
+  split.
+  - intros i j si li sj Zj Hn Hs Hl Hj.
+    destruct (N.eq_dec i t) as [->|Ni]; [rewrite Nxn in Hn; injection Hn as <-; contradiction|].
+    rewrite FrO in Hn, Hs, Hl by (try assumption; discriminate).
+    assert (Nj : j <> t) by (apply valid_neq_fresh; exact (dl_next_valid h i j D Zj Hn)).
+    rewrite FrO in Hj by (try assumption; discriminate). exact (O i j si li sj Zj Hn Hs Hl Hj).
+  - intros i si li Hs Hl.
+    destruct (N.eq_dec i t) as [->|Ni].
+    + rewrite Stn in Hs. rewrite Lnn in Hl. injection Hs as <-. injection Hl as <-.
+      destruct r as [|y r']; [cbn in Eel, Ell; rewrite Hsx in Eel; injection Eel as <-; exact Bl|].
+      rewrite wadd_small by exact Bl. rewrite wsub_small by lia. lia.
+    + rewrite FrO in Hs, Hl by (try assumption; discriminate). apply (B i); assumption.
+Qed.
+Theorem split_preserves_order h t l r ts tlen tty start len ntype h' :
+  dl h -> ordered h -> bounded h ->
+  seg h 0 (l ++ t :: r) 0 -> NoDup (l ++ t :: r) -> rd h t Fst = Some ts -> rd h t Fln = Some tlen -> rd h t Fty = Some tty ->
+  ts + tlen < W -> ts <= start -> start + len <= ts + tlen ->
+  token_split h t start len ntype = Some h' -> ordered h' /\ bounded h'.
+Proof.
+  intros D O B HS ND Hst Hln Hty NW I1 I2 E.
+  assert (Vt : valid h t) by (eapply rd_some_valid; exact Hst).
+  assert (Nr : rd h t Fnx = Some (hd 0 r)).
+  { pose proof HS as S0. apply seg_app in S0. destruct S0 as [_ S0]. cbn [seg] in S0. tauto. }
+  assert (Gap : forall sj, hd 0 r <> 0 -> rd h (hd 0 r) Fst = Some sj -> ts + tlen <= sj).
+  { intros sj Z Hj. exact (O t (hd 0 r) ts tlen sj Z Nr Hst Hln Hj). }
+  assert (Nta : t <> (fresh h)) by (apply valid_neq_fresh; exact Vt).
+  assert (Nta2 : t <> (fresh h + 1)) by (unfold fresh; destruct Vt; lia).
+  assert (Vnr : hd 0 r <> 0 -> valid h (hd 0 r)) by (intro Z; exact (dl_next_valid h t _ D Z Nr)).
+  (* a generic finish: given the starts / lengths / next links of t and of the new tokens, and the frame *)
+  assert (Fin : forall (news : list N),
+     (forall j g, ~ In j news -> ~ (j = t /\ g = Fnx) -> ~ (j = t /\ g = Fln) -> g <> Fpv -> g <> Fty -> rd h' j g = rd h j g) ->
+     (forall j, In j news -> ~ valid h j) ->
+     rd h' t Fst = Some ts ->
+     (forall i j si li sj, (i = t \/ In i news) -> j <> 0 -> rd h' i Fnx = Some j -> rd h' i Fst = Some si -> rd h' i Fln = Some li ->
+                           rd h' j Fst = Some sj -> si + li <= sj) ->
+     (forall i si li, (i = t \/ In i news) -> rd h' i Fst = Some si -> rd h' i Fln = Some li -> si + li < W) ->
+     ordered h' /\ bounded h').
+  { intros news Fr Nv St' Lk Bd. split.
+    - intros i j si li sj Zj Hn Hs Hl Hj.
+      destruct (N.eq_dec i t) as [Eit|Nit]; [exact (Lk i j si li sj (or_introl Eit) Zj Hn Hs Hl Hj)|].
+      destruct (in_dec N.eq_dec i news) as [Iin|Nin]; [exact (Lk i j si li sj (or_intror Iin) Zj Hn Hs Hl Hj)|].
+      rewrite Fr in Hn, Hs, Hl by (try assumption; try discriminate; intros [X _]; contradiction).
+      assert (Vj : valid h j) by exact (dl_next_valid h i j D Zj Hn).
+      assert (Njn : ~ In j news) by (intro X; exact (Nv j X Vj)).
+      destruct (N.eq_dec j t) as [->|Njt].
+      + rewrite St' in Hj. injection Hj as <-. exact (O i t si li ts Zj Hn Hs Hl Hst).
+      + rewrite Fr in Hj by (try assumption; try discriminate; intros [X _]; contradiction).
+        exact (O i j si li sj Zj Hn Hs Hl Hj).
+    - intros i si li Hs Hl.
+      destruct (N.eq_dec i t) as [Eit|Nit]; [exact (Bd i si li (or_introl Eit) Hs Hl)|].
+      destruct (in_dec N.eq_dec i news) as [Iin|Nin]; [exact (Bd i si li (or_intror Iin) Hs Hl)|].
+      rewrite Fr in Hs, Hl by (try assumption; try discriminate; intros [X _]; contradiction). apply (B i); assumption. }
+  destruct (N.lt_ge_cases ts start) as [B1|B1]; destruct (N.lt_ge_cases (start + len) (ts + tlen)) as [B2|B2].
+  - destruct (split_both h 0 t l r ts tlen tty start len ntype HS ND Hst Hln Hty NW I1 I2 B1 B2)
+      as (h2 & E2 & _ & Sn & St & Lt & _ & Sa & La & _ & Sa2 & La2 & _ & _ & _ & Fr).
+    assert (h2 = h') by congruence. subst h2.
+    apply seg_app in Sn. destruct Sn as [_ Sn]. cbn [seg hd] in Sn. destruct Sn as (_ & _ & Nt' & _ & _ & Na' & _ & _ & Na2' & _).
+    apply (Fin [(fresh h); (fresh h + 1)]).
+    + intros j g Nin F1 F2 F3 F4. apply Fr; try assumption; try (intro X; apply Nin; rewrite X; cbn; tauto). intros [_ X]. contradiction.
+    + intros j [<-|[<-|[]]]; [apply fresh_not_valid|unfold fresh, valid; lia].
+    + exact St.
+    + intros i j si li sj Hi Zj Hn Hs Hl Hj. destruct Hi as [->|[<-|[<-|[]]]].
+      * rewrite Nt' in Hn. injection Hn as <-. rewrite St in Hs. rewrite Lt in Hl. rewrite Sa in Hj. injection Hs as <-. injection Hl as <-. injection Hj as <-. lia.
+      * rewrite Na' in Hn. injection Hn as <-. rewrite Sa in Hs. rewrite La in Hl. rewrite Sa2 in Hj. injection Hs as <-. injection Hl as <-. injection Hj as <-. lia.
+      * rewrite Na2' in Hn. injection Hn as <-. rewrite Sa2 in Hs. rewrite La2 in Hl. injection Hs as <-. injection Hl as <-.
+        assert (Vj : valid h (hd 0 r)) by (apply Vnr; exact Zj).
+        rewrite Fr in Hj; try (intros [_ X]; discriminate); try (apply valid_neq_fresh; exact Vj); try (unfold fresh; destruct Vj; lia).
+        pose proof (Gap sj Zj Hj). lia.
+    + intros i si li Hi Hs Hl. destruct Hi as [->|[<-|[<-|[]]]].
+      * rewrite St in Hs. rewrite Lt in Hl. injection Hs as <-. injection Hl as <-. lia.
+      * rewrite Sa in Hs. rewrite La in Hl. injection Hs as <-. injection Hl as <-. lia.
+      * rewrite Sa2 in Hs. rewrite La2 in Hl. injection Hs as <-. injection Hl as <-. lia.
+  - destruct (split_start h 0 t l r ts tlen tty start len ntype HS ND Hst Hln Hty NW I1 I2 B1) as (h2 & E2 & _ & Sn & St & Lt & _ & Sa & La & _ & _ & Fr); [lia|].
+    assert (h2 = h') by congruence. subst h2.
+    apply seg_app in Sn. destruct Sn as [_ Sn]. cbn [seg hd] in Sn. destruct Sn as (_ & _ & Nt' & _ & _ & Na' & _).
+    apply (Fin [(fresh h)]).
+    + intros j g Nin F1 F2 F3 F4. apply Fr; try assumption; try (intro X; apply Nin; rewrite X; cbn; tauto). intros [_ X]. contradiction.
+    + intros j [<-|[]]. apply fresh_not_valid.
+    + exact St.
+    + intros i j si li sj Hi Zj Hn Hs Hl Hj. destruct Hi as [->|[<-|[]]].
+      * rewrite Nt' in Hn. injection Hn as <-. rewrite St in Hs. rewrite Lt in Hl. rewrite Sa in Hj. injection Hs as <-. injection Hl as <-. injection Hj as <-. lia.
+      * rewrite Na' in Hn. injection Hn as <-. rewrite Sa in Hs. rewrite La in Hl. injection Hs as <-. injection Hl as <-.
+        assert (Vj : valid h (hd 0 r)) by (apply Vnr; exact Zj).
+        rewrite Fr in Hj; try (intros [_ X]; discriminate); try (apply valid_neq_fresh; exact Vj).
+        pose proof (Gap sj Zj Hj). lia.
+    + intros i si li Hi Hs Hl. destruct Hi as [->|[<-|[]]].
+      * rewrite St in Hs. rewrite Lt in Hl. injection Hs as <-. injection Hl as <-. lia.
+      * rewrite Sa in Hs. rewrite La in Hl. injection Hs as <-. injection Hl as <-. lia.
+  - destruct (split_stop h 0 t l r ts tlen tty start len ntype HS ND Hst Hln Hty NW I1 I2) as (h2 & E2 & _ & Sn & St & Lt & _ & Sa & La & _ & _ & Fr); [lia|exact B2|].
+    assert (h2 = h') by congruence. subst h2.
+    apply seg_app in Sn. destruct Sn as [_ Sn]. cbn [seg hd] in Sn. destruct Sn as (_ & _ & Nt' & _ & _ & Na' & _).
+    apply (Fin [(fresh h)]).
+    + intros j g Nin F1 F2 F3 F4. apply Fr; try assumption; try (intro X; apply Nin; rewrite X; cbn; tauto); intros [_ X]; contradiction.
+    + intros j [<-|[]]. apply fresh_not_valid.
+    + exact St.
+    + intros i j si li sj Hi Zj Hn Hs Hl Hj. destruct Hi as [->|[<-|[]]].
+      * rewrite Nt' in Hn. injection Hn as <-. rewrite St in Hs. rewrite Lt in Hl. rewrite Sa in Hj. injection Hs as <-. injection Hl as <-. injection Hj as <-. lia.
+      * rewrite Na' in Hn. injection Hn as <-. rewrite Sa in Hs. rewrite La in Hl. injection Hs as <-. injection Hl as <-.
+        assert (Vj : valid h (hd 0 r)) by (apply Vnr; exact Zj).
+        rewrite Fr in Hj; try (intros [_ X]; discriminate); try (apply valid_neq_fresh; exact Vj).
+        pose proof (Gap sj Zj Hj). lia.
+    + intros i si li Hi Hs Hl. destruct Hi as [->|[<-|[]]].
+      * rewrite St in Hs. rewrite Lt in Hl. injection Hs as <-. injection Hl as <-. lia.
+      * rewrite Sa in Hs. rewrite La in Hl. injection Hs as <-. injection Hl as <-. lia.
+  - destruct (split_none h 0 t l r ts tlen start len ntype HS ND Hst Hln NW I1 I2) as (h2 & E2 & _ & _ & Fr); [lia|lia|].
+    assert (h2 = h') by congruence. subst h2.
+    apply (order_relink h h' []); try assumption.
+    + intros j g Hg. apply Fr. intros [_ X]. rewrite X in Hg. destruct Hg; discriminate.
+    + intros i j Zj Hn. left. rewrite Fr in Hn by (intros [_ X]; discriminate). exact Hn.
+    + intros i j si li sj [].
+Qed.
+
 (* ---- histories: one step = one primitive called within the hypotheses of its theorem *)
 Inductive good_step : heap -> heap -> Prop :=
-| GNew h type start len : good_step h (fst (token_new h type start len))
+| GNew h type start len : start + len < W -> good_step h (fst (token_new h type start len))
 | GChainAppend h x1 r1 x2 r2 h' :
     seg h 0 (x1 :: r1) 0 -> seg h 0 (x2 :: r2) 0 -> NoDup ((x1 :: r1) ++ (x2 :: r2)) -> tail_ok h x1 r1 -> tail_ok h x2 r2 ->
+    (* the appended chain starts at or after the end of the chain it is appended to *)
+    (forall s1 l1 s2, rd h (List.last r1 x1) Fst = Some s1 -> rd h (List.last r1 x1) Fln = Some l1 -> rd h x2 Fst = Some s2 -> s1 + l1 <= s2) ->
     token_chain_append h x1 x2 = Some h' -> good_step h h'
 | GGraft h a m b fi la ctype mm h' :
     seg h 0 (a ++ fi :: m ++ la :: b) 0 -> NoDup (a ++ fi :: m ++ la :: b) -> rd h fi Fmt = Some mm ->
@@ -541,10 +872,31 @@ Proof.
 Qed.
 
 (* every heap built by calls that stay within the hypotheses is doubly linked everywhere *)
-Theorem reachable_coherent h : reachable h -> dl h /\ msym h.
+Lemma good_step_order h h' : dl h -> ordered h -> bounded h -> good_step h h' -> ordered h' /\ bounded h'.
 Proof.
-  induction 1 as [|h h' _ [D M] G]; [split; [exact dl_nil|exact msym_nil]|].
-  split; [exact (good_step_dl h h' D G)|exact (good_step_msym h h' D M G)].
+  intros D O B G. destruct G.
+  - apply new_preserves_order; assumption.
+  - apply (chain_append_preserves_order h x1 r1 x2 r2 h'); assumption.
+  - destruct (graft_preserves_order h a m b fi la ctype mm) as (h2 & E & O2 & B2); try assumption.
+    assert (h2 = h') by congruence. subst h2. split; assumption.
+  - apply (split_preserves_order h t l r ts tlen tty start len ntype h'); assumption.
+  - apply (new_parent_preserves_order h x r ptype sx h' n); assumption.
+  - apply (prune_preserves_order h a pvt x rr b h'); assumption.
+  - apply (pop_link_preserves_order h a pvt t b h'); assumption.
+  - apply (mate_preserves_order h a b h'); assumption.
+Qed.
+
+Lemma order_nil : ordered [] /\ bounded [].
+Proof.
+  split.
+  - intros i j si li sj _ H. unfold rd, tokat in H. destruct (i =? 0); cbn in H; [discriminate|]. destruct (idx i); discriminate.
+  - intros i si li H. unfold rd, tokat in H. destruct (i =? 0); cbn in H; [discriminate|]. destruct (idx i); discriminate.
+Qed.
+
+Theorem reachable_coherent h : reachable h -> dl h /\ msym h /\ ordered h /\ bounded h.
+Proof.
+  induction 1 as [|h h' _ (D & M & O & B) G]; [split; [exact dl_nil|split; [exact msym_nil|exact order_nil]]|].
+  split; [exact (good_step_dl h h' D G)|]. split; [exact (good_step_msym h h' D M G)|exact (good_step_order h h' D O B G)].
 Qed.
 
 Theorem reachable_doubly_linked h : reachable h -> dl h.
